@@ -1,5 +1,6 @@
 """C06 — operations the schema cannot answer are never turned into code (structural rules on the
 query-binding / validation code)."""
+import re
 from . import prov as P
 from . import terms as TM
 from . import hirx as H
@@ -238,7 +239,11 @@ def rule_validators_dominate(ctx):
             it_term = ctx.pv.eval(fn, itn[1], {}, 0)
             fields = TM.fields_in(it_term)
             filt = _chain_methods(ctx, fn, itn[1]) & {'filter', 'take', 'skip', 'take_while', 'skip_while', 'step_by', 'filter_map', 'rev_take'}
-            if okl and not filt and (fields & {'Query.selections', 'Document.definitions'}):
+            skips = _loop_skips(fn, loop, n)
+            if skips:
+                obs.append(bad('VALIDATE-ORDER', inst, 'the per-element validator can be skipped: `%s` earlier in the loop body' % skips[0].get('k'), skips[0].get('sp', n.get('sp', '')),
+                               'some selections/definitions are never validated'))
+            elif okl and not filt and (fields & {'Query.selections', 'Document.definitions'}):
                 obs.append(ok('VALIDATE-ORDER', inst, 'applied to every element of %s before Ok(..)' % sorted(fields & {'Query.selections', 'Document.definitions'}), n.get('sp', '')))
             else:
                 obs.append(bad('VALIDATE-ORDER', inst, 'validator applied in a loop that does not cover all %s (filters: %s; precedes Ok: %s)' %
@@ -270,6 +275,53 @@ def rule_validators_dominate(ctx):
                 obs.append(bad('VALIDATE-ORDER', 'inner/resolve-before-codegen', 'code generation is reachable without a successful resolve(): %s/%s' % (kind, why),
                                rs[0].get('sp', ''), 'invalid operations yield code'))
     return obs
+
+
+def _loop_skips(fn, loop, call):
+    """`continue` / `break` / explicit `return` nodes of the loop (or iterator closure) body that can run before `call`
+    in one iteration: any such node means that some elements do not reach the validator"""
+    body = loop.get('body')
+    if body is None and loop.get('k') == 'mcall':
+        for a in loop.get('args', []):
+            c = a
+            while c.get('k') in ('wrap', 'ref'):
+                c = c['e']
+            if c.get('k') == 'closure':
+                body = c.get('body')
+    if body is None:
+        return []
+    out = []
+    call_line = _pos(call)
+
+    def rec(n, top):
+        if not isinstance(n, dict):
+            return
+        k = n.get('k')
+        if not top and k in ('closure', 'for', 'loop', 'while'):
+            return
+        if k in ('continue', 'break') or (k == 'ret' and not n.get('desugar')):
+            if _pos(n) <= call_line:
+                out.append(n)
+        for v in n.values():
+            if isinstance(v, dict):
+                rec(v, False)
+            elif isinstance(v, list):
+                for x in v:
+                    if isinstance(x, dict):
+                        rec(x, False)
+                    elif isinstance(x, (list, tuple)):
+                        for y in x:
+                            if isinstance(y, dict):
+                                rec(y, False)
+    rec(body, True)
+    return out
+
+
+def _pos(n):
+    """(line, col) of a node's span start, for ordering nodes of one function body"""
+    sp = n.get('sp', '')
+    m = re.search(r':(\d+):(\d+)', sp)
+    return (int(m.group(1)), int(m.group(2))) if m else (0, 0)
 
 
 def _chain_methods(ctx, fn, e, depth=0):
@@ -505,6 +557,45 @@ def rule_typename_matrix(ctx):
         else:
             obs.append(bad('TYPENAME-MATRIX', 'validate_typename_presence/' + r, 'no rejecting check of __typename presence for ' + what, fn.loc,
                            'an abstract selection without __typename is turned into code that cannot pick a variant'))
+    # the streams the checks run over are not thinned out by content: an adaptor between `selections()` / `fragments` and the
+    # check may select by kind (the `filter_map` over Selection / TypeId variants), never by what the selection contains
+    CONTENT = {'SelectedField.selection_set', 'InlineFragment.selection_set', 'ResolvedFragment.selection_set', 'SelectedField.alias',
+               'SelectedField.field_id', 'ResolvedFragment.name'}
+    nstreams = 0
+    for f_ in family:
+        for n in f_.walk(lambda n: n['k'] == 'mcall' and n['method'] in ('filter', 'skip_while', 'take_while', 'take', 'skip', 'step_by')):
+            try:
+                rt = ctx.pv.eval(f_, n['recv'], {}, 0)
+            except Exception:
+                continue
+            src = TM.fields_in(rt) & {'Query.selections', 'Query.fragments'}
+            if not src:
+                continue
+            nstreams += 1
+            inst = 'validate_typename_presence/stream-%s-%s' % (n['method'], '+'.join(sorted(src)))
+            if n['method'] != 'filter':
+                obs.append(bad('TYPENAME-MATRIX', inst, 'the checked stream over %s is cut by `%s`' % (sorted(src), n['method']), n.get('sp', ''),
+                               'some abstract selections are never checked for __typename'))
+                continue
+            reads = set()
+            for a in n.get('args', []):
+                c = a
+                while c.get('k') in ('wrap', 'ref'):
+                    c = c['e']
+                if c.get('k') == 'closure':
+                    try:
+                        bt = ctx.pv.eval(f_, c['body'], H.sym_env(f_), 0)
+                        reads |= TM.fields_in(bt)
+                    except Exception:
+                        reads.add('?')
+                else:
+                    reads.add('?')
+            hit = sorted((reads & CONTENT) | ({'?'} & reads))
+            if hit:
+                obs.append(bad('TYPENAME-MATRIX', inst, 'the checked stream is filtered by content (%s), not by kind' % hit, n.get('sp', ''),
+                               'abstract selections the filter drops may omit __typename'))
+            else:
+                obs.append(ok('TYPENAME-MATRIX', inst, 'filter reads no selection content', n.get('sp', '')))
     # both abstract kinds are covered where kinds are filtered
     pats = []
     for f_ in family:
